@@ -2,7 +2,11 @@
 // Units = (block type, version); each unit explores the typed-read decision tree of that
 // block's reader within the deviation bound and evaluates the property's oracle on every
 // execution.  See DESIGN.md 3.3 and the per-property sections.
+#include "battery.hpp"
+#include "canon.hpp"
 #include "s1.hpp"
+
+#include <dirent.h>
 
 using namespace nifly;
 using namespace e1;
@@ -152,58 +156,210 @@ static void oracle_c01_block(const std::string& type, const VerCfg& vc, const Sc
 	g_unit_outcomes.insert(vf::fnv(vf::strf("%zu/%zu", tape.bytes.size(), b1.size())));
 }
 
-static void oracle_c01_file(const std::string& type, const VerCfg& vc, const Script& s, Stats& st) {
-	s1::Built b = s1::build_s1(type, vc, s, g_wide);
-	if (!b.ok) { st.add("file_not_built"); return; }
-	std::string game = game_of(vc);
+// F must be the library's raw output for some accepted input: it must load, the reader must stop
+// exactly at the footer, and writing it again must reproduce F byte for byte; the default save must
+// converge within two rounds.  keybase identifies the corpus entry class (type:game or file:name).
+static void c01_file_checks(const std::string& F, const std::string& keybase, const std::string& what, const J& cj, Stats& st) {
 	st.add("files_checked");
-	// F is the library's raw output for the synthesised input: it must load, the reader must stop
-	// exactly at the footer, and writing it again must reproduce F byte for byte.
 	NifFile a;
 	long long consumed = 0;
-	int rc = s1::load(a, b.file, &consumed);
+	int rc = s1::load(a, F, &consumed);
 	if (rc != 0) {
-		st.violation(type + ":" + game + ":file-reload-fails", vf::strf("%s (%s): Load of the library's own raw output returns %d", type.c_str(), vc.name, rc),
-					 case_json(type, vc, s));
+		st.violation(keybase + ":file-reload-fails", vf::strf("%s: Load of the library's own raw output returns %d", what.c_str(), rc), cj);
 		return;
 	}
-	if (consumed != (long long) b.file.size() - 8) {
-		st.violation(type + ":" + game + ":file-reread-extent",
-					 vf::strf("%s (%s): reloading raw output of %zu bytes stops at %lld instead of %zu (footer start)", type.c_str(), vc.name,
-							  b.file.size(), consumed, b.file.size() - 8),
-					 case_json(type, vc, s));
+	if (consumed != (long long) F.size() - 8) {
+		st.violation(keybase + ":file-reread-extent",
+					 vf::strf("%s: reloading raw output of %zu bytes stops at %lld instead of %zu (footer start)", what.c_str(), F.size(), consumed, F.size() - 8), cj);
 		return;
 	}
 	std::string S1 = s1::save(a, true);
-	if (S1 != b.file) {
-		st.violation(type + ":" + game + ":file-raw-not-fixed-point",
-					 vf::strf("%s (%s): raw save of reloaded raw save differs (%s)", type.c_str(), vc.name, first_diff(b.file, S1).c_str()),
-					 case_json(type, vc, s));
+	if (S1 != F) {
+		st.violation(keybase + ":file-raw-not-fixed-point", vf::strf("%s: raw save of reloaded raw save differs (%s)", what.c_str(), first_diff(F, S1).c_str()), cj);
 		return;
 	}
 	// default option: D1 = Save(Load(F)), D2 = Save(Load(D1)), D3 = Save(Load(D2)); D2 == D3
 	NifFile d0;
-	if (s1::load(d0, b.file) != 0) return;
+	if (s1::load(d0, F) != 0) return;
 	std::string D1 = s1::save(d0, false);
 	NifFile d1;
 	if (s1::load(d1, D1) != 0) {
-		st.violation(type + ":" + game + ":file-default-reload-fails", vf::strf("%s (%s): Load of default-save output fails", type.c_str(), vc.name),
-					 case_json(type, vc, s));
+		st.violation(keybase + ":file-default-reload-fails", vf::strf("%s: Load of default-save output fails", what.c_str()), cj);
 		return;
 	}
 	std::string D2 = s1::save(d1, false);
 	NifFile d2;
 	if (s1::load(d2, D2) != 0) {
-		st.violation(type + ":" + game + ":file-default-reload-fails", vf::strf("%s (%s): Load of 2nd default-save output fails", type.c_str(), vc.name),
-					 case_json(type, vc, s));
+		st.violation(keybase + ":file-default-reload-fails", vf::strf("%s: Load of 2nd default-save output fails", what.c_str()), cj);
 		return;
 	}
 	std::string D3 = s1::save(d2, false);
 	if (D2 != D3)
-		st.violation(type + ":" + game + ":file-default-not-converged",
-					 vf::strf("%s (%s): default save has not converged after two rounds (%s)", type.c_str(), vc.name, first_diff(D2, D3).c_str()),
-					 case_json(type, vc, s));
+		st.violation(keybase + ":file-default-not-converged",
+					 vf::strf("%s: default save has not converged after two rounds (%s)", what.c_str(), first_diff(D2, D3).c_str()), cj);
 	g_unit_file_outcomes.insert(vf::fnv(vf::strf("%zu/%zu", S1.size(), D2.size())));
+}
+
+static void oracle_c01_file(const std::string& type, const VerCfg& vc, const Script& s, Stats& st) {
+	s1::Built b = s1::build_s1(type, vc, s, g_wide);
+	if (!b.ok) { st.add("file_not_built"); return; }
+	c01_file_checks(b.file, type + ":" + game_of(vc), vf::strf("%s (%s)", type.c_str(), vc.name), case_json(type, vc, s), st);
+}
+
+// ---------- C02 ----------
+static std::vector<std::string> g_hists;
+
+static std::vector<std::string> all_histories(int maxlen) {
+	std::vector<std::string> r, cur = {""};
+	for (int l = 1; l <= maxlen; l++) {
+		std::vector<std::string> nxt;
+		for (auto& h : cur) for (char c : {'R', 'D', 'Q'}) nxt.push_back(h + c);
+		for (auto& h : nxt) r.push_back(h);
+		cur = nxt;
+	}
+	return r;
+}
+
+// block level: writing the same object twice must give the same bytes
+static void oracle_c02_block(const std::string& type, const VerCfg& vc, const Script& s, Stats& st, NiObject* obj, NiHeader& hdr) {
+	std::string b[3];
+	for (int k = 0; k < 3; k++) {
+		std::ostringstream o(std::ios::binary);
+		NiOStream out(&o, &hdr);
+		obj->Put(out);
+		b[k] = o.str();
+	}
+	st.add("block_resaves_checked");
+	if (b[0] != b[1] || b[1] != b[2])
+		st.violation(type + ":" + game_of(vc) + ":put-twice-differs",
+					 vf::strf("%s (%s): writing the same object again gives different bytes (1st vs 2nd: %s; 2nd vs 3rd: %s)", type.c_str(), vc.name,
+							  first_diff(b[0], b[1]).c_str(), first_diff(b[1], b[2]).c_str()),
+					 case_json(type, vc, s));
+	g_unit_outcomes.insert(vf::fnv(b[0]));
+}
+
+// file level: every history over {R = raw save, D = default save, Q = query battery} against the
+// reference function on histories (DESIGN C02): the k-th save must equal Save(default)(Load(F)) if a
+// default save occurred at or before k, else Save(raw)(Load(F)) -- both from twin objects, compared
+// after canonical string-table renumbering; the logical snapshot must survive every save.
+static void c02_file_checks(const std::string& F, const std::string& keybase, const std::string& what, J cj, Stats& st) {
+	NifFile traw, tdef;
+	if (s1::load(traw, F) != 0) { st.add("file_not_accepted"); return; }
+	if (s1::load(tdef, F) != 0) return;
+	canon::Canon refRaw = canon::canonical(canon::save(traw, true));
+	canon::Canon refDef = canon::canonical(canon::save(tdef, false));
+	st.add("files_checked");
+	bat::Opt full, freeo;
+	full.index_free = false;
+	// GetShapePartitions is not read-only (it triangulates partition strips and fills caches), so it
+	// cannot serve as a "read-only query" between saves
+	full.lazy_getters = freeo.lazy_getters = false;
+	freeo.index_free = true;
+	freeo.bounds = false;
+	freeo.reachable_only = true;
+	for (auto& h : g_hists) {
+		if (vf::deadline_passed()) { st.capped("deadline inside C02 histories"); return; }
+		NifFile x;
+		if (s1::load(x, F) != 0) return;
+		st.add("histories");
+		std::string base_full = bat::model_text(x, full), base_free = bat::model_text(x, freeo);
+		bool seenDefault = false;
+		J cjh = cj;
+		cjh.set("history", h);
+		for (size_t k = 0; k < h.size(); k++) {
+			char op = h[k];
+			bool firstDefault = false;
+			if (op == 'R' || op == 'D') {
+				if (op == 'D' && !seenDefault) { seenDefault = true; firstDefault = true; }
+				canon::Canon got = canon::canonical(canon::save(x, op == 'R'));
+				st.add("saves_compared");
+				std::string d = canon::diff(seenDefault ? refDef : refRaw, got);
+				if (!d.empty()) {
+					st.violation(keybase + ":resave-differs:" + canon::first_block_type_differing(seenDefault ? refDef : refRaw, got),
+								 vf::strf("%s: history %s, save #%zu (%s) differs from the first save of a fresh twin: %s", what.c_str(), h.c_str(), k + 1,
+										  op == 'R' ? "raw" : "default", d.c_str()),
+								 cjh);
+					break;
+				}
+			}
+			std::string now_full = bat::model_text(x, full);
+			st.add("snapshots_compared");
+			if (firstDefault) {
+				std::string now_free = bat::model_text(x, freeo);
+				if (now_free != base_free) {
+					if (getenv("VERIF_DEBUG")) {
+						size_t k2 = 0;
+						while (k2 < now_free.size() && k2 < base_free.size() && now_free[k2] == base_free[k2]) k2++;
+						size_t from = k2 > 300 ? k2 - 300 : 0;
+						fprintf(stderr, "--- before:\n%s\n--- after:\n%s\n", base_free.substr(from, 600).c_str(), now_free.substr(from, 600).c_str());
+					}
+					st.violation(keybase + ":snapshot-changed-by-default-save",
+								 vf::strf("%s: history %s: index-free query results of the reachable model differ after the first default save (op #%zu)", what.c_str(),
+										  h.c_str(), k + 1),
+								 cjh);
+					break;
+				}
+				base_full = now_full;
+				base_free = now_free;
+			}
+			else if (now_full != base_full) {
+				if (getenv("VERIF_DEBUG")) {
+					size_t k2 = 0;
+					while (k2 < now_full.size() && k2 < base_full.size() && now_full[k2] == base_full[k2]) k2++;
+					size_t from = k2 > 300 ? k2 - 300 : 0;
+					fprintf(stderr, "--- before:\n%s\n--- after:\n%s\n", base_full.substr(from, 500).c_str(), now_full.substr(from, 500).c_str());
+				}
+				st.violation(keybase + ":snapshot-changed",
+							 vf::strf("%s: history %s: query results differ after op #%zu (%c): %s", what.c_str(), h.c_str(), k + 1, op,
+									  first_diff(base_full, now_full).c_str()),
+							 cjh);
+				break;
+			}
+		}
+		g_unit_file_outcomes.insert(vf::fnv(base_full, vf::fnv(h)));
+	}
+}
+
+static void oracle_c02_file(const std::string& type, const VerCfg& vc, const Script& s, Stats& st) {
+	s1::Built b = s1::build_s1(type, vc, s, g_wide);
+	if (!b.ok) { st.add("file_not_built"); return; }
+	c02_file_checks(b.file, type + ":" + game_of(vc), vf::strf("%s (%s)", type.c_str(), vc.name), case_json(type, vc, s), st);
+}
+
+// ---------- sample files (corpus R) ----------
+static std::vector<std::string> g_rfiles;
+
+static void list_rfiles() {
+	for (const char* sub : {"/tests/input", "/tests/expected"}) {
+		std::string dir = A.repo + sub;
+		DIR* d = opendir(dir.c_str());
+		if (!d) continue;
+		std::vector<std::string> names;
+		while (auto e = readdir(d)) {
+			std::string n = e->d_name;
+			if (n.size() > 4 && n.substr(n.size() - 4) == ".nif") names.push_back(n);
+		}
+		closedir(d);
+		std::sort(names.begin(), names.end());
+		for (auto& n : names) g_rfiles.push_back(std::string(sub + 7) + "/" + n); // "input/x.nif", "expected/x.nif"
+	}
+}
+
+static void run_rfile(const std::string& rel, Stats& st) {
+	J cj = J::obj().set("file", rel);
+	vf::set_inflight(cj.dump());
+	std::string F0 = vf::read_file(A.repo + "/tests/" + rel);
+	std::string keybase = "file:" + rel;
+	NifFile a;
+	if (s1::load(a, F0) != 0) { st.add("file_not_accepted"); return; }
+	std::string F = s1::save(a, true); // normal form
+	st.add("evaluations");
+	g_unit_nontrivial.insert(vf::fnv(F0));
+	if (st.samples.size() < 2) st.sample(cj.set("bytes", (long long) F0.size()));
+	if (A.prop == "C01") c01_file_checks(F, keybase, rel, cj, st);
+	else if (A.prop == "C02") {
+		c02_file_checks(F0, keybase, rel, cj, st);
+	}
 }
 
 // ---------- one execution ----------
@@ -316,12 +472,26 @@ int main(int argc, char** argv) {
 	g_wide = A.geti("wide", 1) != 0;
 	g_file_level = (int) A.geti("filelevel", thorough ? 2 : 1);
 	g_file_dev = (int) A.geti("filedev", 1);
+	if (A.prop == "C02") {
+		if (thorough) g_hists = all_histories(3);
+		else g_hists = {"RRR", "DDD", "RD", "DR", "QRQ"};
+		if (A.has("hist")) g_hists = {A.get("hist")};
+		g_bound = (int) A.geti("bound", 1); // block level: deviation <= 1 wide; thorough raises the file level instead
+		if (thorough && !A.has("bound")) g_bound = 2;
+	}
 	if (A.has("type")) g_types = {A.get("type")};
 	if (A.has("version")) { auto v = find_ver(A.get("version")); if (!v) vf::fatal("unknown version"); g_vers = {*v}; }
 
 	if (!A.replay.empty()) {
 		J r = J::parse(vf::read_file(A.replay));
 		const J& c = r["case"];
+		g_hists = all_histories(3);
+		if (c.has("history")) g_hists = {c["history"].str()};
+		if (c.has("file")) {
+			run_rfile(c["file"].str(), top);
+			vf::finish(top);
+			return 0;
+		}
 		auto v = find_ver(c["version"].str());
 		if (!v) vf::fatal("replay: unknown version " + c["version"].str());
 		g_wide = c["wide"].t == J::BOOL ? c["wide"].b : true;
@@ -333,16 +503,32 @@ int main(int argc, char** argv) {
 		return 0;
 	}
 
-	struct Unit { size_t t, v; };
+	struct Unit { size_t t, v; long rfile; };
 	std::vector<Unit> units;
-	for (size_t t = 0; t < g_types.size(); t++)
-		for (size_t v = 0; v < g_vers.size(); v++) units.push_back({t, v});
+	// sample files first (the big ones take longest)
+	if ((A.prop == "C01" || A.prop == "C02") && !A.has("type") && A.geti("rfiles", 1)) {
+		list_rfiles();
+		for (size_t i = 0; i < g_rfiles.size(); i++) units.push_back({0, 0, (long) i});
+	}
+	if (A.geti("e1", 1))
+		for (size_t t = 0; t < g_types.size(); t++)
+			for (size_t v = 0; v < g_vers.size(); v++) units.push_back({t, v, -1});
 
 	vf::PoolCfg pc;
 	pc.jobs = A.jobs;
 	pc.rundir = A.rundir;
 	pc.repo = A.repo;
 	auto unit_fn = [&](size_t u, const std::vector<std::string>& skips, long, Stats& st) {
+		if (units[u].rfile >= 0) {
+			g_unit_nontrivial.clear();
+			g_unit_outcomes.clear();
+			g_unit_file_outcomes.clear();
+			run_rfile(g_rfiles[(size_t) units[u].rfile], st);
+			st.add("sample_file_units");
+			st.add("distinct_nontrivial", (long long) g_unit_nontrivial.size());
+			st.add("distinct_file_outcomes", (long long) g_unit_file_outcomes.size());
+			return;
+		}
 		const std::string& type = g_types[units[u].t];
 		const VerCfg& vc = g_vers[units[u].v];
 		ExploreCfg cfg;
@@ -360,6 +546,12 @@ int main(int argc, char** argv) {
 		st.add("distinct_file_outcomes", (long long) g_unit_file_outcomes.size());
 	};
 	auto crash_fn = [&](size_t u, const vf::CrashInfo& ci, const std::string& inflight, Stats& parent) -> std::string {
+		if (units[u].rfile >= 0) {
+			// a sample file is a valid input: a fault while loading / saving it is a defect, not a rejection
+			J cj = J::obj().set("file", g_rfiles[(size_t) units[u].rfile]);
+			parent.violation("file:" + g_rfiles[(size_t) units[u].rfile] + ":crash:" + ci.key(), "worker died (" + ci.cls + " in " + ci.frame + ") on a sample file", cj);
+			return "";
+		}
 		// a sanitizer fault while reading a synthesised block = input not accepted (DESIGN section 5, e)
 		parent.distinct("fault_sites", ci.key());
 		if (parent.cnt["units_isolated"] < 8) parent.note("unit re-run with one forked child per execution after " + ci.key() + " on " + inflight.substr(0, 300));
@@ -374,6 +566,8 @@ int main(int argc, char** argv) {
 						  "distinct_nontrivial = distinct tapes (by hash of type+version+bytes) with >=1 deviation or >=1 populated array",
 						  g_types.size(), g_vers.size(), g_bound, g_wide ? "wide" : "narrow"));
 	top.set_info("deviation_bound", g_bound);
+	if (A.prop == "C02") top.set_info("histories", J::arr_of(g_hists));
+	top.set_info("sample_files", (long long) g_rfiles.size());
 	top.set_info("types", (long long) g_types.size());
 	top.set_info("version_configs", (long long) g_vers.size());
 	vf::finish(top);
